@@ -121,6 +121,9 @@ def fixed_forms(src, canon):
             tr = dict(base, ind=ind)
             for reg in REGS:
                 yield Form(src, canon, "idx.zero", wrap(ind, "," + reg), {"mode": "idx", "kind": "off", "reg": reg, "off": 0, "ind": ind}, tr)
+                if not ind:
+                    # the README's own spelling of the zero offset form: "LDB X"
+                    yield Form(src, canon, "idx.zero.bare-register", reg, {"mode": "idx", "kind": "off", "reg": reg, "off": 0, "ind": False}, tr)
                 for acc in "ABD":
                     yield Form(src, canon, "idx.acc", wrap(ind, acc + "," + reg), {"mode": "idx", "kind": "acc", "acc": acc, "reg": reg, "ind": ind}, tr)
                 yield Form(src, canon, "idx.inc2", wrap(ind, "," + reg + "++"), {"mode": "idx", "kind": "inc2", "reg": reg, "ind": ind}, tr)
